@@ -409,6 +409,57 @@ pub proof fn lemma_known_monotone(pos: Pos, buffered: Set<u32>, vis: Map<u32, Li
 
 // ---- the final publication (`for vs in ecu_map.values() { .. for lc in vs.iter().rev() { .. } }` with the early exit once as many
 // lifecycles were written as there are buffered ones): every buffered lifecycle of the map is written to the table ----
+// a table item that is the current state of a lifecycle (everything but the refresh index)
+pub open spec fn item_of(lc: Lifecycle, it: Lifecycle) -> bool {
+    it.id == lc.id && it.ecu == lc.ecu && it.nr_msgs == lc.nr_msgs && it.nr_control_req_msgs == lc.nr_control_req_msgs && it.start_time == lc.start_time
+        && it.initial_start_time == lc.initial_start_time && it.min_timestamp_us == lc.min_timestamp_us && it.max_timestamp_us == lc.max_timestamp_us
+        && it.last_reception_time == lc.last_reception_time && it.resume_lc == lc.resume_lc && it.sw_version == lc.sw_version
+}
+pub open spec fn lc_at(pos: Pos, m: Map<DltChar4, Seq<Lifecycle>>, id: u32) -> Lifecycle { m[pos[id].0][pos[id].1] }
+// every lifecycle found so far is in the writer's state with its current state
+#[verifier::opaque]
+pub open spec fn found_fresh(pos: Pos, m: Map<DltChar4, Seq<Lifecycle>>, found: Set<u32>, pen: Map<u32, Lifecycle>) -> bool {
+    forall|id: u32| #[trigger] found.contains(id) ==> pos.dom().contains(id) && pen.dom().contains(id) && item_of(lc_at(pos, m, id), pen[id])
+}
+pub proof fn lemma_found_fresh_init(pos: Pos, m: Map<DltChar4, Seq<Lifecycle>>, pen: Map<u32, Lifecycle>)
+    ensures found_fresh(pos, m, Set::<u32>::empty(), pen),
+{ reveal(found_fresh); }
+pub proof fn lemma_found_fresh_insert(pos: Pos, m: Map<DltChar4, Seq<Lifecycle>>, e: DltChar4, j: int, found: Set<u32>, pen: Map<u32, Lifecycle>, item: Lifecycle)
+    requires pos_inv(pos, m), m.dom().contains(e), 0 <= j < m[e].len(), found_fresh(pos, m, found, pen), !found.contains(m[e][j].id), item_of(m[e][j], item),
+    ensures found_fresh(pos, m, found.insert(m[e][j].id), pen.insert(m[e][j].id, item)),
+{
+    reveal(found_fresh);
+    lemma_pos_at(pos, m, e, j);
+}
+// all of them: every lifecycle of the map in `bset` is in the writer's state with its current state
+#[verifier::opaque]
+pub open spec fn all_fresh(pos: Pos, m: Map<DltChar4, Seq<Lifecycle>>, bset: Set<u32>, pen: Map<u32, Lifecycle>) -> bool {
+    forall|id: u32| #[trigger] pos.dom().contains(id) && bset.contains(id) ==> pen.dom().contains(id) && item_of(lc_at(pos, m, id), pen[id])
+}
+pub proof fn lemma_all_fresh_empty(pos: Pos, m: Map<DltChar4, Seq<Lifecycle>>, bset: Set<u32>, pen: Map<u32, Lifecycle>)
+    requires forall|x: u32| !bset.contains(x),
+    ensures all_fresh(pos, m, bset, pen),
+{ reveal(all_fresh); }
+pub proof fn lemma_all_fresh(pos: Pos, mp: &VxEcuMap, bset: Set<u32>, found: Set<u32>, pen: Map<u32, Lifecycle>, nr: int, vi: int)
+    requires
+        pos_inv(pos, mp.m()), keys_ok(mp), pub_cnt(pos, bset, found, pen, nr), found_fresh(pos, mp.m(), found, pen),
+        nr == 0 || (vi == mp.keys().len() && pub_done_keys(pos, mp, bset, found, vi)),
+    ensures all_fresh(pos, mp.m(), bset, pen),
+{
+    reveal(pub_cnt); reveal(all_fresh); reveal(pub_done_keys); reveal(pos_inv); reveal(found_fresh);
+    if nr == 0 {
+        vstd::set_lib::lemma_subset_equality(found, bset);
+    }
+}
+pub proof fn lemma_not_found(pos: Pos, mp: &VxEcuMap, bset: Set<u32>, found: Set<u32>, vi: int, lj: int)
+    requires pos_inv(pos, mp.m()), keys_ok(mp), 1 <= vi <= mp.keys().len(), 0 <= lj < mp.m()[mp.keys()[vi - 1]].len(), pub_cur(pos, mp, bset, found, vi, lj + 1),
+    ensures !found.contains(mp.m()[mp.keys()[vi - 1]][lj].id),
+{
+    reveal(pub_cur);
+    let id = mp.m()[mp.keys()[vi - 1]][lj].id;
+    lemma_pos_at(pos, mp.m(), mp.keys()[vi - 1], lj);
+    if found.contains(id) { assert(visited(mp, pos[id], vi, lj + 1)); }
+}
 pub open spec fn visited(mp: &VxEcuMap, p: (DltChar4, int), vi: int, lj: int) -> bool { 0 <= mp.kidx(p.0) < vi - 1 || (mp.kidx(p.0) == vi - 1 && p.1 >= lj) }
 #[verifier::opaque]
 pub open spec fn pub_cnt(pos: Pos, bset: Set<u32>, found: Set<u32>, pen: Map<u32, Lifecycle>, nr: int) -> bool {
@@ -580,17 +631,27 @@ pub fn vx_clone_lc(lc: &Lifecycle) -> (r: Lifecycle)
 //@   sub R11 `lc.clone()` => `vx_clone_lc(lc)`
 //@   sub R12 `-> LifecycleItem` => `-> Lifecycle`
 //@   spec
-//@|    ensures r.id == lc.id && r.ecu == lc.ecu && r.nr_msgs == lc.nr_msgs, // O:publish.item (the published item carries the lifecycle's id, ECU and message count)
+//@|    ensures item_of(*lc, r), // O:publish.item (the published item is the lifecycle as it is now: id, ECU, counts, times; only the refresh index differs)
 //@ end
 // the two helper closures of the function, presented as functions (R18); the captured `last_regular_refresh_index` becomes a parameter
 //@ extract src/lifecycle/mod.rs closure fn parse_lifecycles_buffered_from_stream#1
 //@   sig pub fn vx_mark_lc_id_to_refresh(id: LifecycleId, lcs_to_refresh: &mut Vec<LifecycleId>)
 //@   spec
-//@|    ensures forall|x: u32| final(lcs_to_refresh)@.contains(x) ==> old(lcs_to_refresh)@.contains(x) || x == id, // O:table.mark.frame (only this id is marked)
+//@|    ensures
+//@|        forall|x: u32| final(lcs_to_refresh)@.contains(x) ==> old(lcs_to_refresh)@.contains(x) || x == id, // O:table.mark.frame (only this id is marked)
+//@|        final(lcs_to_refresh)@.contains(id) && forall|x: u32| old(lcs_to_refresh)@.contains(x) ==> final(lcs_to_refresh)@.contains(x), // O:table.mark.marked (the id is marked; no mark is lost)
+//@|        old(lcs_to_refresh)@.no_duplicates() ==> final(lcs_to_refresh)@.no_duplicates(), // O:table.mark.once (an id is marked at most once)
 //@   hint start
 //@|    let ghost v0 = lcs_to_refresh@;
 //@   hint before `^}`
-//@|    proof { assert forall|x: u32| lcs_to_refresh@.contains(x) implies v0.contains(x) || x == id by { if lcs_to_refresh@ != v0 { let i = choose|i: int| 0 <= i < lcs_to_refresh@.len() && lcs_to_refresh@[i] == x; if i < v0.len() { assert(v0[i] == x); } } } }
+//@|    proof {
+//@|        assert forall|x: u32| lcs_to_refresh@.contains(x) implies v0.contains(x) || x == id by { if lcs_to_refresh@ != v0 { let i = choose|i: int| 0 <= i < lcs_to_refresh@.len() && lcs_to_refresh@[i] == x; if i < v0.len() { assert(v0[i] == x); } } }
+//@|        if lcs_to_refresh@ != v0 {
+//@|            assert(lcs_to_refresh@ == v0.push(id));
+//@|            assert(lcs_to_refresh@[v0.len() as int] == id);
+//@|            assert forall|x: u32| v0.contains(x) implies lcs_to_refresh@.contains(x) by { let i = choose|i: int| 0 <= i < v0.len() && v0[i] == x; assert(lcs_to_refresh@[i] == x); }
+//@|        }
+//@|    }
 //@ end
 //@ extract src/lifecycle/mod.rs closure fn parse_lifecycles_buffered_from_stream#2
 //@   sig #[verifier::loop_isolation(false)] #[verifier::allow_complex_invariants] pub fn vx_check_regular_refresh<T: VLcTab>(pos: Ghost<Pos>, last_regular_refresh_index: &mut u32, last_msg_index: u32, force_refresh: bool, lcs_to_refresh: &mut Vec<LifecycleId>, lcs_w: &mut T, ecu_map: &VxEcuMap, last_lcw_refresh_index: &mut u32)
@@ -604,7 +665,14 @@ pub fn vx_clone_lc(lc: &Lifecycle) -> (r: Lifecycle)
 //@|    requires
 //@|        *old(last_regular_refresh_index) <= u32::MAX - 100_000 && last_msg_index <= u32::MAX - 100_000, // fewer than 2^32 - 100000 messages
 //@|        map_ok(ecu_map.m()), pos_inv(pos@, ecu_map.m()), tab_ok(old(lcs_w).visible(), pos@), tab_ok(old(lcs_w).wview(), pos@), wdom_ok(pos@, old(lcs_w).visible(), old(lcs_w).wview()),
+//@|        old(lcs_to_refresh)@.no_duplicates(),
 //@|    ensures
+//@|        // rule #2: when the table is refreshed (forced, or more than 100000 message indices since the last regular refresh), every marked
+//@|        // lifecycle of the map is written with its current state before, and the marks are cleared; otherwise nothing happens
+//@|        (force_refresh || *old(last_regular_refresh_index) + 100_000 < last_msg_index) ==>
+//@|            all_fresh(pos@, ecu_map.m(), old(lcs_to_refresh)@.to_set(), final(lcs_w).visible()) && final(lcs_to_refresh)@.len() == 0 && final(lcs_w).visible() == final(lcs_w).wview(), // O:table.refresh.all_marked
+//@|        !(force_refresh || *old(last_regular_refresh_index) + 100_000 < last_msg_index) ==>
+//@|            final(lcs_w).visible() == old(lcs_w).visible() && final(lcs_w).wview() == old(lcs_w).wview() && final(lcs_to_refresh)@ == old(lcs_to_refresh)@, // O:table.refresh.else_nothing
 //@|        tab_ok(final(lcs_w).visible(), pos@), tab_ok(final(lcs_w).wview(), pos@), // O:publish.refresh.ecu
 //@|        forall|id: u32| #[trigger] old(lcs_w).visible().dom().contains(id) && pos@.dom().contains(id) ==> final(lcs_w).visible().dom().contains(id), // O:publish.refresh.monotone (no lifecycle of the map that was visible disappears)
 //@|        wdom_ok(pos@, final(lcs_w).visible(), final(lcs_w).wview()), // O:table.refresh.dom
@@ -612,28 +680,65 @@ pub fn vx_clone_lc(lc: &Lifecycle) -> (r: Lifecycle)
 //@|        forall|id: u32| #[trigger] final(lcs_w).wview().dom().contains(id) ==> old(lcs_w).wview().dom().contains(id) || old(lcs_to_refresh)@.contains(id), // O:table.refresh.only_marked
 //@|        forall|x: u32| final(lcs_to_refresh)@.contains(x) ==> old(lcs_to_refresh)@.contains(x),
 //@|        *final(last_regular_refresh_index) <= u32::MAX - 100_000,
-//@   hint before `lcs_w.vx_update(lc.id`
+//@   hint after `let mut nr_lcs_to_update =`
+//@|    let ghost bset = lcs_to_refresh@.to_set();
+//@|    let ghost mut found: Set<u32> = Set::empty();
+//@|    proof {
+//@|        lcs_to_refresh@.unique_seq_to_set();
+//@|        lemma_pub_init(pos@, ecu_map, bset, lcs_w.wview());
+//@|        lemma_found_fresh_init(pos@, ecu_map.m(), lcs_w.wview());
+//@|    }
+//@   hint before `let mut vx_lj: usize = vs.len();`
+//@|    proof {
+//@|        lemma_pub_enter(pos@, ecu_map, bset, found, vx_vi as int);
+//@|        if vs.len() == 0 { lemma_pub_leave(pos@, ecu_map, bset, found, vx_vi as int); }
+//@|    }
+//@   hint before `if lcs_to_refresh.contains(&lc.id) {`
 //@|    let ghost pen_c = lcs_w.wview();
+//@|    proof {
+//@|        assert(ecu_map.m()[ecu_map.keys()[vx_vi - 1]][vx_lj as int] == *lc);
+//@|        if !bset.contains(lc.id) {
+//@|            lemma_pub_skip(pos@, ecu_map, bset, found, vx_vi as int, vx_lj as int);
+//@|            if vx_lj == 0 { lemma_pub_leave(pos@, ecu_map, bset, found, vx_vi as int); }
+//@|        }
+//@|    }
 //@   hint after `lcs_w.vx_update(lc.id`
 //@|    proof {
 //@|        let e = ecu_map.keys()[vx_vi - 1];
-//@|        assert(ecu_map.m()[e][vx_lj as int] == *lc);
-//@|        lemma_publish(pos@, ecu_map.m(), e, vx_lj as int, lcs_w.wview()[lc.id], lcs_w.visible(), pen_c);
-//@|        assert(lcs_w.wview() =~= pen_c.insert(lc.id, lcs_w.wview()[lc.id]));
+//@|        let item = lcs_w.wview()[lc.id];
+//@|        assert(lcs_w.wview() =~= pen_c.insert(lc.id, item));
+//@|        lemma_publish(pos@, ecu_map.m(), e, vx_lj as int, item, lcs_w.visible(), pen_c);
+//@|        lemma_not_found(pos@, ecu_map, bset, found, vx_vi as int, vx_lj as int);
+//@|        lemma_found_fresh_insert(pos@, ecu_map.m(), e, vx_lj as int, found, pen_c, item);
+//@|        lemma_pub_found(pos@, ecu_map, bset, found, pen_c, item, nr_lcs_to_update as int, vx_vi as int, vx_lj as int);
+//@|        found = found.insert(lc.id);
+//@|        if vx_lj == 0 { lemma_pub_leave(pos@, ecu_map, bset, found, vx_vi as int); }
 //@|    }
 //@   hint before `lcs_w.refresh();`
-//@|    proof { lemma_wdom_refresh(pos@, lcs_w.visible(), lcs_w.wview()); }
+//@|    proof {
+//@|        lemma_wdom_refresh(pos@, lcs_w.visible(), lcs_w.wview());
+//@|        lemma_all_fresh(pos@, ecu_map, bset, found, lcs_w.wview(), nr_lcs_to_update as int, vx_vi as int);
+//@|    }
 //@   loop inner `let mut vx_lj: usize = vs.len()`
 //@|    invariant
 //@|        vx_vi <= vx_nv, lcs_w.visible() == old(lcs_w).visible(), tab_ok(lcs_w.wview(), pos@), wdom_ok(pos@, lcs_w.visible(), lcs_w.wview()), lcs_to_refresh@ == old(lcs_to_refresh)@,
 //@|        forall|id: u32| #[trigger] lcs_w.wview().dom().contains(id) ==> old(lcs_w).wview().dom().contains(id) || old(lcs_to_refresh)@.contains(id),
+//@|        pub_cnt(pos@, bset, found, lcs_w.wview(), nr_lcs_to_update as int), found_fresh(pos@, ecu_map.m(), found, lcs_w.wview()),
+//@|        nr_lcs_to_update > 0 ==> pub_done_keys(pos@, ecu_map, bset, found, vx_vi as int),
+//@|    ensures
+//@|        nr_lcs_to_update == 0 || vx_vi == vx_nv,
 //@|    decreases vx_nv - vx_vi,
 //@   loop inner `nr_lcs_to_update -= 1`
 //@|    invariant_except_break
 //@|        nr_lcs_to_update > 0,
+//@|        pub_cur(pos@, ecu_map, bset, found, vx_vi as int, vx_lj as int),
+//@|        vx_lj == 0 ==> pub_done_keys(pos@, ecu_map, bset, found, vx_vi as int),
 //@|    invariant
 //@|        vx_lj <= vs.len(), lcs_w.visible() == old(lcs_w).visible(), tab_ok(lcs_w.wview(), pos@), wdom_ok(pos@, lcs_w.visible(), lcs_w.wview()), lcs_to_refresh@ == old(lcs_to_refresh)@,
 //@|        forall|id: u32| #[trigger] lcs_w.wview().dom().contains(id) ==> old(lcs_w).wview().dom().contains(id) || old(lcs_to_refresh)@.contains(id),
+//@|        1 <= vx_vi <= vx_nv, pub_cnt(pos@, bset, found, lcs_w.wview(), nr_lcs_to_update as int), found_fresh(pos@, ecu_map.m(), found, lcs_w.wview()),
+//@|    ensures
+//@|        nr_lcs_to_update > 0 ==> pub_done_keys(pos@, ecu_map, bset, found, vx_vi as int),
 //@|    decreases vx_lj,
 //@ end
 
@@ -861,12 +966,12 @@ pub fn vx_clone_lc(lc: &Lifecycle) -> (r: Lifecycle)
 //@|        lemma_one_sendable(pos, buffered_lcs.ids(), lcs_w.visible(), msg);
 //@|        lemma_nb_empty(buffered_lcs.ids(), lcs_w.wview());
 //@|    }
-//@   hint before `let mut nr_lcs_to_update = buffered_lcs.len();`
+//@   hint before last `let mut nr_lcs_to_update =`
 //@|    let ghost bset = buffered_lcs.ids();
 //@|    let ghost mut found: Set<u32> = Set::empty();
 //@|    let ghost vis_f = lcs_w.visible();
-//@   hint after `let mut nr_lcs_to_update = buffered_lcs.len();`
-//@|    proof { lemma_pub_init(pos, &ecu_map, bset, lcs_w.wview()); }
+//@   hint after last `let mut nr_lcs_to_update =`
+//@|    proof { lemma_pub_init(pos, &ecu_map, bset, lcs_w.wview()); lemma_found_fresh_init(pos, ecu_map.m(), lcs_w.wview()); }
 //@   hint before `let mut vx_lj: usize = vs.len();`
 //@|    proof {
 //@|        lemma_pub_enter(pos, &ecu_map, bset, found, vx_vi as int);
@@ -887,20 +992,30 @@ pub fn vx_clone_lc(lc: &Lifecycle) -> (r: Lifecycle)
 //@|        let item = lcs_w.wview()[lc.id];
 //@|        assert(lcs_w.wview() =~= pen_p.insert(lc.id, item));
 //@|        lemma_publish(pos, ecu_map.m(), e, vx_lj as int, item, vis_f, pen_p);
+//@|        lemma_not_found(pos, &ecu_map, bset, found, vx_vi as int, vx_lj as int);
+//@|        lemma_found_fresh_insert(pos, ecu_map.m(), e, vx_lj as int, found, pen_p, item);
 //@|        lemma_pub_found(pos, &ecu_map, bset, found, pen_p, item, nr_lcs_to_update as int, vx_vi as int, vx_lj as int);
 //@|        found = found.insert(lc.id);
 //@|        if vx_lj == 0 { lemma_pub_leave(pos, &ecu_map, bset, found, vx_vi as int); }
 //@|    }
 //@   hint before last `lcs_w.refresh();`
 //@|    let ghost pen_f = lcs_w.wview();
-//@|    proof { lemma_pub_all(pos, &ecu_map, bset, found, pen_f, nr_lcs_to_update as int, vx_vi as int); }
+//@|    proof {
+//@|        lemma_pub_all(pos, &ecu_map, bset, found, pen_f, nr_lcs_to_update as int, vx_vi as int);
+//@|        lemma_all_fresh(pos, &ecu_map, bset, found, pen_f, nr_lcs_to_update as int, vx_vi as int);
+//@|    }
 //@   hint after last `vx_bump(&mut last_lcw_refresh_index);`
 //@|    let ghost all_e = outflow.log() + buffered_msgs.q();
 //@|    proof {
 //@|        lemma_final_refresh(pos, bset, vis_f, pen_f, buffered_msgs.q());
+//@|        assert(all_fresh(pos, ecu_map.m(), bset, lcs_w.visible())); // O:table.final.buffered_fresh (every lifecycle still buffered at the end of input is listed with its final state)
 //@|    }
+//@   hint before last `vx_check_regular_refresh(`
+//@|    let ghost marks_fin = lcs_to_refresh@.to_set();
 //@   hint before `^lcs_w`
 //@|    proof {
+//@|        assert(all_fresh(pos, ecu_map.m(), marks_fin, lcs_w.visible())); // O:table.final.marked_fresh (every lifecycle marked for a refresh when the input ends is listed with its final state)
+//@|        assert(lcs_to_refresh@.len() == 0);
 //@|        if nf { assert(ms0.take(k) =~= ms0); assert(outflow.log() + buffered_msgs.q() =~= outflow.log()); }
 //@|        assert(lcs_w.visible() == lcs_w.wview() || !(lcs_w.visible() == lcs_w.wview()));
 //@|        assert(forall|id: u32| #[trigger] lcs_w.wview().dom().contains(id) ==> pos.dom().contains(id)) by { reveal(wdom_ok); } // O:table.final.listed (the final table lists only lifecycles of the map: no merged lifecycle)
@@ -921,7 +1036,7 @@ pub fn vx_clone_lc(lc: &Lifecycle) -> (r: Lifecycle)
 //@|        tab_ok(lcs_w.visible(), pos) && tab_ok(lcs_w.wview(), pos), // O:publish.inv.ecu (a table entry carries the ECU its lifecycle is stored under)
 //@|        known_ok(pos, buffered_lcs.ids(), lcs_w.visible()), // O:publish.inv.known (every lifecycle in the map is still buffered or already visible)
 //@|        wdom_ok(pos, lcs_w.visible(), lcs_w.wview()), // O:table.inv.dom (the table lists no lifecycle that is not in the map: no merged lifecycle)
-//@|        nb_ok(buffered_lcs.ids(), lcs_w.wview()) && marks_ok(buffered_lcs.ids(), lcs_to_refresh@), // (auxiliary, untagged) a buffered lifecycle is neither in the table nor marked for a refresh
+//@|        nb_ok(buffered_lcs.ids(), lcs_w.wview()) && marks_ok(buffered_lcs.ids(), lcs_to_refresh@), lcs_to_refresh@.no_duplicates(), // (auxiliary, untagged) a buffered lifecycle is neither in the table nor marked for a refresh
 //@|        ecu_map.total() == vmsgs0 + k, // O:table.inv.total (the message counts of all lifecycles add up to the number of messages)
 //@|        queued_ok(pos, buffered_msgs.q()), // O:publish.inv.queued (the lifecycle of every queued message is a lifecycle of its own ECU in the map)
 //@|    ensures
@@ -934,7 +1049,7 @@ pub fn vx_clone_lc(lc: &Lifecycle) -> (r: Lifecycle)
 //@|        outflow.log().len() >= log0.len(),
 //@|        queued_ok(pos, buffered_msgs.q()),
 //@|        forall|i: int| 0 <= i < buffered_msgs.q().len() ==> sendable(lcs_w.visible(), #[trigger] buffered_msgs.q()[i]), // O:publish.flush.sendable
-//@|        marks_ok(buffered_lcs.ids(), lcs_to_refresh@),
+//@|        marks_ok(buffered_lcs.ids(), lcs_to_refresh@), lcs_to_refresh@.no_duplicates(),
 //@|    ensures
 //@|        nf ==> buffered_msgs.q().len() == 0,
 //@|    decreases buffered_msgs.q().len(),
@@ -946,7 +1061,7 @@ pub fn vx_clone_lc(lc: &Lifecycle) -> (r: Lifecycle)
 //@|        nf ==> queue_inv(&buffered_lcs, &buffered_msgs), // O:stream.confirm.queue
 //@|        tab_ok(lcs_w.visible(), pos) && tab_ok(lcs_w.wview(), pos), known_ok(pos, buffered_lcs.ids(), lcs_w.visible()), queued_ok(pos, buffered_msgs.q()), // O:publish.confirm.inv
 //@|        wdom_ok(pos, lcs_w.visible(), lcs_w.wview()), // O:table.confirm.inv
-//@|        nb_ok(buffered_lcs.ids(), lcs_w.wview()) && marks_ok(buffered_lcs.ids(), lcs_to_refresh@),
+//@|        nb_ok(buffered_lcs.ids(), lcs_w.wview()) && marks_ok(buffered_lcs.ids(), lcs_to_refresh@), lcs_to_refresh@.no_duplicates(),
 //@|    decreases vx_nv - vx_vi,
 //@   loop inner `let mut prune_lc_id`
 //@|    invariant
@@ -956,7 +1071,7 @@ pub fn vx_clone_lc(lc: &Lifecycle) -> (r: Lifecycle)
 //@|        nf ==> queue_inv(&buffered_lcs, &buffered_msgs), // O:stream.confirm.inner.queue
 //@|        tab_ok(lcs_w.visible(), pos) && tab_ok(lcs_w.wview(), pos), known_ok(pos, buffered_lcs.ids(), lcs_w.visible()), queued_ok(pos, buffered_msgs.q()), // O:publish.confirm.inner.inv
 //@|        wdom_ok(pos, lcs_w.visible(), lcs_w.wview()), // O:table.confirm.inner.inv
-//@|        nb_ok(buffered_lcs.ids(), lcs_w.wview()) && marks_ok(buffered_lcs.ids(), lcs_to_refresh@),
+//@|        nb_ok(buffered_lcs.ids(), lcs_w.wview()) && marks_ok(buffered_lcs.ids(), lcs_to_refresh@), lcs_to_refresh@.no_duplicates(),
 //@|    decreases vx_lj,
 //@   loop inner `prune_lc_id =`
 //@|    invariant
@@ -964,7 +1079,7 @@ pub fn vx_clone_lc(lc: &Lifecycle) -> (r: Lifecycle)
 //@|        nf ==> outflow.log() + buffered_msgs.q() == all_b, // O:stream.prune.fifo
 //@|        outflow.log().len() >= log0.len(),
 //@|        queued_ok(pos, buffered_msgs.q()),
-//@|        marks_ok(buffered_lcs.ids(), lcs_to_refresh@),
+//@|        marks_ok(buffered_lcs.ids(), lcs_to_refresh@), lcs_to_refresh@.no_duplicates(),
 //@|        // every queued message of the lifecycle being pruned, or of a lifecycle that is no longer buffered, can be delivered
 //@|        forall|i: int| 0 <= i < buffered_msgs.q().len() && ((#[trigger] buffered_msgs.q()[i]).lifecycle == prune_lc_id || !buffered_lcs.ids().contains(buffered_msgs.q()[i].lifecycle)) ==> sendable(lcs_w.visible(), buffered_msgs.q()[i]), // O:publish.prune.sendable
 //@|    ensures
@@ -974,6 +1089,7 @@ pub fn vx_clone_lc(lc: &Lifecycle) -> (r: Lifecycle)
 //@|    invariant
 //@|        vx_vi <= vx_nv, lcs_w.visible() == vis_f, tab_ok(lcs_w.wview(), pos), wdom_ok(pos, vis_f, lcs_w.wview()),
 //@|        pub_cnt(pos, bset, found, lcs_w.wview(), nr_lcs_to_update as int), // O:publish.final.count
+//@|        found_fresh(pos, ecu_map.m(), found, lcs_w.wview()),
 //@|        nr_lcs_to_update > 0 ==> pub_done_keys(pos, &ecu_map, bset, found, vx_vi as int), // O:publish.final.visited
 //@|    ensures
 //@|        nr_lcs_to_update == 0 || vx_vi == vx_nv,
@@ -985,7 +1101,7 @@ pub fn vx_clone_lc(lc: &Lifecycle) -> (r: Lifecycle)
 //@|        vx_lj == 0 ==> pub_done_keys(pos, &ecu_map, bset, found, vx_vi as int),
 //@|    invariant
 //@|        vx_lj <= vs.len(), lcs_w.visible() == vis_f, tab_ok(lcs_w.wview(), pos), 1 <= vx_vi <= vx_nv, wdom_ok(pos, vis_f, lcs_w.wview()),
-//@|        pub_cnt(pos, bset, found, lcs_w.wview(), nr_lcs_to_update as int),
+//@|        pub_cnt(pos, bset, found, lcs_w.wview(), nr_lcs_to_update as int), found_fresh(pos, ecu_map.m(), found, lcs_w.wview()),
 //@|    ensures
 //@|        nr_lcs_to_update > 0 ==> pub_done_keys(pos, &ecu_map, bset, found, vx_vi as int),
 //@|    decreases vx_lj,
@@ -995,6 +1111,7 @@ pub fn vx_clone_lc(lc: &Lifecycle) -> (r: Lifecycle)
 //@|        nf ==> outflow.log() + buffered_msgs.q() == all_e, // O:stream.final.fifo
 //@|        outflow.log().len() >= log0.len(),
 //@|        forall|i: int| 0 <= i < buffered_msgs.q().len() ==> sendable(lcs_w.visible(), #[trigger] buffered_msgs.q()[i]), // O:publish.final.sendable
+//@|        lcs_to_refresh@.no_duplicates(),
 //@|    ensures
 //@|        nf ==> buffered_msgs.q().len() == 0,
 //@|    decreases buffered_msgs.q().len(),
